@@ -15,6 +15,15 @@ A dead child (the client killed the process), a hang or a panic of the call is a
 Other calls waiting for A at the time: they must never receive a wrong value and must still complete when answered;
 that they are not re-sent to the new data centre (they wait until someone answers their old ids) is recorded as
 evidence and a note; set STRICT_INFLIGHT to report it as a violation.
+
+Several callers answered with PHONE_MIGRATE_X at once (spec kind=multi, harness migrate_multi.go): every caller must come
+back with its OWN answer from a data centre it was sent to, the caller answered normally in between gets its pong, nobody
+dies, panics, hangs or gets an error, a later request completes; for equal X the request of each caller arrives exactly
+once at the data centre of X and nowhere else.
+
+Confirm before report: the verdicts of this half depend on a live TCP client under load.  Every failing scenario is run
+again alone with 4x the watchdog and 4x the settle pauses (racing scenarios up to 3 times); it is reported only if the
+same check fails again.  coverage.timing_retries counts the re-runs, timing_not_reproduced the verdicts dropped.
 """
 import os
 import shutil
@@ -24,6 +33,7 @@ from .. import common as C
 from . import c13m
 
 STRICT_INFLIGHT = False
+MAX_CONFIRMED = 2   # confirmation re-runs of hangs are slow (4x watchdog each): stop confirming after this many violations
 
 
 def unhex(h):
@@ -52,6 +62,202 @@ def spec_fields(spec):
         k, v = kv.split("=", 1)
         d[k] = v
     return d
+
+
+def rerun(ctx, hb, work, sid, s):
+    """one scenario again, alone, with 4x the watchdog and settle pauses; returns a scenario dict or None"""
+    out = work + "/rerun.txt"
+    if os.path.exists(out):
+        os.remove(out)
+    e = c13m.scratch_env(ctx, work)
+    e["VERIF_TIMESCALE"] = "4"
+    e["VERIF_WATCHDOG_MS"] = str(4 * int(os.environ.get("VERIF_WATCHDOG_MS", "10000")))
+    rc, log = C.sh([hb, "migrate", "rerun", out, sid, s["spec"]], env=e, timeout=1200)
+    shutil.rmtree(work + "/scratch", ignore_errors=True)
+    rows = C.read_tsv(out) if os.path.exists(out) else []
+    if rc != 0 or not rows or rows[-1][0] != "END":
+        return None
+    r2 = {"spec": s["spec"], "dcs": s["dcs"], "code": s["code"], "text": s["text"], "obs": {}, "exit": None, "stderr": ""}
+    seen_t = False
+    for r in rows:
+        if r[0] == "T":
+            seen_t = True
+            r2["dcs"] = r[3]
+        elif r[0] == "O":
+            r2["obs"][r[2]] = r[3:] if len(r) > 4 else (r[3] if len(r) > 3 else "")
+        elif r[0] == "X":
+            r2["exit"], r2["stderr"] = r[2], show(r[3]) if len(r) > 3 else ""
+    if not seen_t:
+        return None
+    return r2
+
+
+def judge_multi(ctx, sid, s, sp, st, count):
+    o = s["obs"]
+    xs = sp["xs"].split("+")
+    short = "multi/PHONE_MIGRATE_%s/normal%s/seq-%s/%s" % ("+".join(xs), sp["normal"], sp["seq"], sp["sched"])
+    rep = {"scenario": s["spec"], "observations": {k: (" ".join(v) if isinstance(v, list) else v) for k, v in o.items()},
+           "history": "%d callers send auth.sendCode with their own phone numbers to A%s; A answers all in one container: rpc_error 303 PHONE_MIGRATE_%s%s; "
+                      "data centres 2 and 12 live at B, 3 at C; order of the callers: %s"
+                      % (len(xs), ", one more caller sends a ping" if sp["normal"] == "1" else "", ", PHONE_MIGRATE_".join(xs),
+                         " with the pong after the first" if sp["normal"] == "1" else "", sp["sched"]),
+           "how_to_run": "build/bin/h_root_cmd_e2e migrate one %s '%s'" % (sid, s["spec"])}
+
+    def bad(what, msg, expected, got):
+        return {"what": what, "short": short, "msg": "%d callers answered with PHONE_MIGRATE_X at once [%s]: %s" % (len(xs), short, msg),
+                "expected": expected, "got": got, "rep": rep}
+
+    if s["exit"] != "0":
+        return bad("died" if s["exit"] == "died" else "stuck",
+                   "the client process %s: %s" % ("died" if s["exit"] == "died" else "did not finish", s["stderr"][:300]),
+                   "every call returns", "process %s\n%s" % (s["exit"], s["stderr"][-2500:]))
+    dcs = {"2": "B", "12": "B", "3": "C"}
+    same = len(set(dcs[x] for x in xs)) == 1
+    allowed = set(dcs[x] for x in xs)
+    if count and st is not None:
+        m = st["multi"]
+        m["scenarios"] += 1
+        m["callers"] += len(xs)
+        m["new_connections"][o.get("new-conns", "?")] = m["new_connections"].get(o.get("new-conns", "?"), 0) + 1
+        if "sched" in o:
+            st["sched"]["multi:" + o["sched"]] = st["sched"].get("multi:" + o["sched"], 0) + 1
+    for i, x in enumerate(xs):
+        got = o.get("caller-%d" % i, "?")
+        if count and st is not None:
+            k = got if not got.startswith("foreign") else "foreign-answer"
+            st["multi"]["outcomes"][k] = st["multi"]["outcomes"].get(k, 0) + 1
+        want = "own-answer-from-" + dcs[x] if same else "its own answer from one of the data centres named (%s)" % "/".join(sorted(allowed))
+        ok = got == "own-answer-from-" + dcs[x] if same else got in ["own-answer-from-" + a for a in allowed]
+        if not ok:
+            what = {"hang": "hang", "panic": "panic"}.get(got, "foreign-answer" if got.startswith("foreign") else "result")
+            detail = ""
+            if got == "panic":
+                detail = ": " + show(o.get("caller-%d-detail" % i, "-"))[:200]
+            return bad("multi-" + what, "caller %d (PHONE_MIGRATE_%s) ends with %s%s; its request arrived at %s (connections: %s)"
+                       % (i, x, got, detail, o.get("caller-%d-repeats" % i), o.get("caller-%d-arrived-on" % i)), want, got + detail)
+        if same:
+            reps = o.get("caller-%d-repeats" % i, "")
+            wantreps = ",".join("%s:%d" % (n, 1 if n == dcs[x] else 0) for n in "ABC")
+            if reps != wantreps:
+                return bad("multi-repeat-count", "the request of caller %d arrived %s" % (i, reps),
+                           "repeated once at the data centre of X and nowhere else (%s)" % wantreps, reps)
+    if sp["normal"] == "1" and o.get("normal-caller") != "pong:7777":
+        return bad("multi-normal-caller", "the caller answered normally by the old data centre in between ends with %s" % o.get("normal-caller"),
+                   "pong:7777", str(o.get("normal-caller")))
+    if o.get("addr-after") not in allowed:
+        return bad("multi-address", "the client's address afterwards is that of %s" % o.get("addr-after"), "/".join(sorted(allowed)), str(o.get("addr-after")))
+    if o.get("later-request") != "pong" or o.get("later-request-went-to") != o.get("addr-after"):
+        return bad("multi-later-request", "a later request: %s via %s" % (o.get("later-request"), o.get("later-request-went-to")),
+                   "completes at the data centre the client is at (%s)" % o.get("addr-after"), "%s via %s" % (o.get("later-request"), o.get("later-request-went-to")))
+    if count and st is not None and len(st["samples"]) < 9 and int(sid) % 4 == 1:
+        st["samples"].append({"scenario": short, "callers": [o.get("caller-%d" % i) for i in range(len(xs))], "new_connections": o.get("new-conns")})
+    return None
+
+
+def judge(ctx, sid, s, model, st, count):
+    """verdict of one scenario: None, or {what, short, msg, expected, got, rep}; statistics go to st when count is set"""
+    sp = spec_fields(s["spec"])
+    if sp.get("kind") == "multi":
+        return judge_multi(ctx, sid, s, sp, st, count)
+    if st is None:
+        st = {"classes": {}, "sched": {}, "infl": {"scenarios": 0, "calls": 0, "finished_unaided": 0, "finished_after_old_ids_answered": 0,
+                                                    "repeated_at_new_dc": 0}, "deaths": 0, "samples": [], "abandoned": [], "multi": {}}
+    classes, sched, infl, samples, abandoned = st["classes"], st["sched"], st["infl"], st["samples"], st["abandoned"]
+    text = show(s["text"])
+    short = "%s/%s/code%s/seq-%s/inflight%s/%s%s" % (text, sp["setup"], s["code"], sp["seq"], sp["inflight"], sp["sched"],
+                                                     "/B-refuses" if sp.get("b") == "error" else "")
+    o = s["obs"]
+    rep = {"scenario": s["spec"], "error_text": text, "error_code": int(s["code"]), "client_dc_table": s["dcs"],
+           "observations": {k: (" ".join(v) if isinstance(v, list) else v) for k, v in o.items()},
+           "how_to_run": "build/bin/h_root_cmd_e2e migrate one %s '%s'" % (sid, s["spec"])}
+
+    def bad(what, msg, expected, got, no_input=False):
+        return {"what": what, "short": short, "msg": "rpc_error %s %r [%s]: %s" % (s["code"], text, short, msg),
+                "expected": expected, "got": got, "rep": rep, "no_failing_input": no_input}
+
+    if s["exit"] != "0":
+        return bad("died" if s["exit"] == "died" else "stuck",
+                   "the client process %s: %s" % ("died" if s["exit"] == "died" else "did not finish", s["stderr"][:300]),
+                   "the call returns", "process %s\n%s" % (s["exit"], s["stderr"][-2500:]))
+    if "sched" in o:
+        sched[o["sched"]] = sched.get(o["sched"], 0) + 1
+    if sp["setup"] == "newclient" and o.get("newclient-init-request") != "invokeWithLayer(initConnection(help.getConfig))":
+        return bad("newclient-init", "NewClient's initialisation request is not invokeWithLayer(initConnection(help.getConfig))",
+                   "invokeWithLayer(layer, initConnection(..., help.getConfig))", str(o.get("newclient-init-request")))
+    mm = model.get("m" + sid)
+    me = model.get("e" + sid)
+    if not mm or mm[0] in ("P", "ERR") or not me or me[0] != "ok":
+        return bad("model", "the model gives no decision for %r: %s %s" % (text, mm, me), "a decision", "none", no_input=True)
+    action, maddr = mm[0], mm[1]
+    want_fields = [me[3], me[1], me[2]]   # code, message hex, info
+    call = o.get("call", "?")
+    classes[action + " -> " + call] = classes.get(action + " -> " + call, 0) + 1
+    if call in ("panic", "hang"):
+        return bad(call, "the call %s" % ("panics: " + show(o.get("call-detail", "-"))[:200] if call == "panic" else "never returns"),
+                   "a value or an error", call)
+    got_fields = o.get("error-fields")
+    conns = (o.get("A-new-conns"), o.get("B-new-conns"))
+    if action == "switch":
+        if maddr != o.get("addr-B"):
+            return bad("harness", "the model switches to %r which is not server B" % show(maddr), "server B", show(maddr), no_input=True)
+        if sp.get("b") == "error":
+            ok_call = call == "error:self" and got_fields == ["400", "PHONE_NUMBER_INVALID".encode().hex(), "nil"]
+            want_call = "the error B answered the repeated request with (400 PHONE_NUMBER_INVALID)"
+        else:
+            ok_call = call == "value-from-B"
+            want_call = "the answer of the data centre the request was repeated at"
+        checks = [
+            (ok_call, "result", want_call, "%s %s" % (call, got_fields)),
+            (conns == ("0", "1"), "connections", "one new connection, to the configured address", "new connections A=%s B=%s" % conns),
+            (o.get("B-requests") == "1", "repeat-count", "the request repeated once at the new data centre", "%s requests at B" % o.get("B-requests")),
+            (o.get("B-first-request-equals-A-request") == "true", "repeat-bytes", "the same request bytes", "different bytes"),
+            (o.get("B-plain-frames") == "0" and o.get("B-unopenable-frames") == "0", "key",
+             "only frames that open under the client's existing key (no key exchange)",
+             "plain=%s unopenable=%s" % (o.get("B-plain-frames"), o.get("B-unopenable-frames"))),
+            (o.get("B-first-request-salt-is-stored-salt") == "true", "salt", "the session's salt", "another salt"),
+            (o.get("A-requests") == "1", "old-dc-count", "the request sent once to the old data centre", "%s requests at A" % o.get("A-requests")),
+            (o.get("addr-after") == maddr, "address", "client address = %r" % show(maddr), "client address = %r" % show(o.get("addr-after", "-"))),
+            (o.get("later-request") == "pong" and o.get("later-request-went-to") == "B", "later-request",
+             "a later request completes at the new data centre", "%s via %s" % (o.get("later-request"), o.get("later-request-went-to"))),
+        ]
+    else:
+        want_class = "error:nodc" if action == "nodc" else "error:self"
+        checks = [
+            (call == want_class, "result",
+             "an error wrapping the structured error" if action == "nodc" else "the structured error itself", call),
+            (got_fields == want_fields, "error-fields", "code/message/parameter = %s %r %s" % (want_fields[0], show(want_fields[1]), want_fields[2]),
+             "code/message/parameter = %s" % (got_fields and "%s %r %s" % (got_fields[0], show(got_fields[1]), got_fields[2]),)),
+            (conns == ("0", "0"), "connections", "no reconnect", "new connections A=%s B=%s" % conns),
+            (o.get("B-requests") == "0" and o.get("A-requests") == "1", "repeat-count", "the request sent once, not repeated",
+             "A=%s B=%s" % (o.get("A-requests"), o.get("B-requests"))),
+            (o.get("addr-after") == o.get("addr-before"), "address", "address unchanged", "address %r" % show(o.get("addr-after", "-"))),
+            (o.get("later-request") == "pong" and o.get("later-request-went-to") == "A", "later-request",
+             "a later request completes on the same connection", "%s via %s" % (o.get("later-request"), o.get("later-request-went-to"))),
+        ]
+    for ok, what, exp, got in checks:
+        if not ok:
+            return bad(what, "model (Misc/RpcError.v handle) decides %s; expected %s, got %s" % (action, exp, got), exp, got)
+    n = int(sp["inflight"])
+    if n > 0:
+        un = int(o.get("inflight-finished-unaided", "0"))
+        late = int(o.get("inflight-finished-after-late-answer", "0"))
+        resent = int(o.get("inflight-repeated-at-current-dc", "0"))
+        if count:
+            infl["scenarios"] += 1
+            infl["calls"] += n
+            infl["finished_unaided"] += un
+            infl["finished_after_old_ids_answered"] += late
+            infl["repeated_at_new_dc"] += resent if action == "switch" else 0
+        res = o.get("inflight-results", "").split(",")
+        wantres = ["pong:%d" % (9000 + i) for i in range(n)]
+        if late != n or res != wantres:
+            return bad("inflight-lost" if "waiting" in res else "inflight-wrong-result",
+                       "calls that were waiting for the old data centre: %s" % res, "each completes with its own answer once answered: %s" % wantres, str(res))
+        if action == "switch" and un < n and resent < n and count:
+            abandoned.append(short)
+    if count and len(samples) < 6 and int(sid) % 5 == 1:
+        samples.append({"scenario": short, "model": action, "live": call, "connections_new_A_B": list(conns)})
+    return None
 
 
 def stage(ctx):
@@ -106,119 +312,49 @@ def stage(ctx):
     for f in C.read_tsv(mo):
         model[f[0]] = f[1:]
 
-    classes = {}
-    sched = {}
-    infl = {"scenarios": 0, "calls": 0, "finished_unaided": 0, "finished_after_old_ids_answered": 0}
-    deaths = 0
-    samples = []
-    abandoned = []
+    st = {"classes": {}, "sched": {}, "infl": {"scenarios": 0, "calls": 0, "finished_unaided": 0, "finished_after_old_ids_answered": 0,
+                                                 "repeated_at_new_dc": 0},
+          "deaths": 0, "samples": [], "abandoned": [], "multi": {"scenarios": 0, "callers": 0, "outcomes": {}, "new_connections": {}}}
+    retries = 0
+    dropped = []
+    skipped = []
+    seen_keys = set()
+    confirmed_keys = []
     for sid, s in sorted(scen.items(), key=lambda kv: int(kv[0])):
-        sp = spec_fields(s["spec"])
-        text = show(s["text"])
-        short = "%s/%s/code%s/seq-%s/inflight%s/%s%s" % (text, sp["setup"], s["code"], sp["seq"], sp["inflight"], sp["sched"],
-                                                         "/B-refuses" if sp.get("b") == "error" else "")
-        o = s["obs"]
-        rep = {"scenario": s["spec"], "error_text": text, "error_code": int(s["code"]), "client_dc_table": s["dcs"],
-               "observations": {k: (" ".join(v) if isinstance(v, list) else v) for k, v in o.items()},
-               "how_to_run": "build/bin/h_root_cmd_e2e migrate one %s '%s'" % (sid, s["spec"])}
-
-        def bad(what, msg, expected, got):
-            r = dict(rep)
-            r.update({"expected": expected, "got": got})
-            C.violation(ctx, "migrate-live:%s:%s" % (what, short), "rpc_error %s %r [%s]: %s" % (s["code"], text, short, msg), r)
-
-        if s["exit"] != "0":
-            deaths += 1
-            bad("died" if s["exit"] == "died" else "stuck",
-                "the client process %s: %s" % ("died" if s["exit"] == "died" else "did not finish", s["stderr"][:300]),
-                "the call returns", "process %s\n%s" % (s["exit"], s["stderr"][-2500:]))
+        fail = judge(ctx, sid, s, model, st, count=True)
+        if fail is None:
             continue
-        if "sched" in o:
-            sched[o["sched"]] = sched.get(o["sched"], 0) + 1
-        if sp["setup"] == "newclient" and o.get("newclient-init-request") != "invokeWithLayer(initConnection(help.getConfig))":
-            bad("newclient-init", "NewClient's initialisation request is not invokeWithLayer(initConnection(help.getConfig))",
-                "invokeWithLayer(layer, initConnection(..., help.getConfig))", str(o.get("newclient-init-request")))
-        mm = model.get("m" + sid)
-        me = model.get("e" + sid)
-        if not mm or mm[0] in ("P", "ERR") or not me or me[0] != "ok":
-            C.violation(ctx, "migrate-live:model:%s" % short, "the model gives no decision for %r: %s %s" % (text, mm, me),
-                        dict(rep, no_failing_input=True))
+        # confirm before report: alone, 4x the time bounds
+        key = "%s:%s" % (fail["what"], fail["short"])
+        if key in seen_keys:
+            continue            # this verdict of this scenario shape is already confirmed (or dropped) in this run
+        if len(confirmed_keys) >= MAX_CONFIRMED:
+            skipped.append(key)  # enough confirmed violations to fail the check; the others are only listed
             continue
-        action, maddr = mm[0], mm[1]
-        want_fields = [me[3], me[1], me[2]]   # code, message hex, info
-        call = o.get("call", "?")
-        classes[action + " -> " + call] = classes.get(action + " -> " + call, 0) + 1
-        if call in ("panic", "hang"):
-            bad(call, "the call %s" % ("panics: " + show(o.get("call-detail", "-"))[:200] if call == "panic" else "never returns"),
-                "a value or an error", call)
-            continue
-        got_fields = o.get("error-fields")
-        conns = (o.get("A-new-conns"), o.get("B-new-conns"))
-        if action == "switch":
-            if maddr != o.get("addr-B"):
-                C.violation(ctx, "migrate-live:harness:%s" % short, "the model switches to %r which is not server B" % show(maddr),
-                            dict(rep, no_failing_input=True))
+        seen_keys.add(key)
+        racing = "sched=free" in s["spec"]
+        confirmed = None
+        for attempt in range(3 if racing else 1):
+            retries += 1
+            again = rerun(ctx, hb, work, sid, s)
+            if again is None:
                 continue
-            if sp.get("b") == "error":
-                ok_call = call == "error:self" and got_fields == ["400", "PHONE_NUMBER_INVALID".encode().hex(), "nil"]
-                want_call = "the error B answered the repeated request with (400 PHONE_NUMBER_INVALID)"
-            else:
-                ok_call = call == "value-from-B"
-                want_call = "the answer of the data centre the request was repeated at"
-            checks = [
-                (ok_call, "result", want_call, "%s %s" % (call, got_fields)),
-                (conns == ("0", "1"), "connections", "one new connection, to the configured address", "new connections A=%s B=%s" % conns),
-                (o.get("B-requests") == "1", "repeat-count", "the request repeated once at the new data centre", "%s requests at B" % o.get("B-requests")),
-                (o.get("B-first-request-equals-A-request") == "true", "repeat-bytes", "the same request bytes", "different bytes"),
-                (o.get("B-plain-frames") == "0" and o.get("B-unopenable-frames") == "0", "key",
-                 "only frames that open under the client's existing key (no key exchange)",
-                 "plain=%s unopenable=%s" % (o.get("B-plain-frames"), o.get("B-unopenable-frames"))),
-                (o.get("B-first-request-salt-is-stored-salt") == "true", "salt", "the session's salt", "another salt"),
-                (o.get("A-requests") == "1", "old-dc-count", "the request sent once to the old data centre", "%s requests at A" % o.get("A-requests")),
-                (o.get("addr-after") == maddr, "address", "client address = %r" % show(maddr), "client address = %r" % show(o.get("addr-after", "-"))),
-                (o.get("later-request") == "pong" and o.get("later-request-went-to") == "B", "later-request",
-                 "a later request completes at the new data centre", "%s via %s" % (o.get("later-request"), o.get("later-request-went-to"))),
-            ]
-        else:
-            want_class = "error:nodc" if action == "nodc" else "error:self"
-            checks = [
-                (call == want_class, "result",
-                 "an error wrapping the structured error" if action == "nodc" else "the structured error itself", call),
-                (got_fields == want_fields, "error-fields", "code/message/parameter = %s %r %s" % (want_fields[0], show(want_fields[1]), want_fields[2]),
-                 "code/message/parameter = %s" % (got_fields and "%s %r %s" % (got_fields[0], show(got_fields[1]), got_fields[2]),)),
-                (conns == ("0", "0"), "connections", "no reconnect", "new connections A=%s B=%s" % conns),
-                (o.get("B-requests") == "0" and o.get("A-requests") == "1", "repeat-count", "the request sent once, not repeated",
-                 "A=%s B=%s" % (o.get("A-requests"), o.get("B-requests"))),
-                (o.get("addr-after") == o.get("addr-before"), "address", "address unchanged", "address %r" % show(o.get("addr-after", "-"))),
-                (o.get("later-request") == "pong" and o.get("later-request-went-to") == "A", "later-request",
-                 "a later request completes on the same connection", "%s via %s" % (o.get("later-request"), o.get("later-request-went-to"))),
-            ]
-        failed = False
-        for ok, what, exp, got in checks:
-            if not ok:
-                failed = True
-                bad(what, "model (Misc/RpcError.v handle) decides %s; expected %s, got %s" % (action, exp, got), exp, got)
+            f2 = judge(ctx, sid, again, model, None, count=False)
+            if f2 is not None and f2["what"] == fail["what"]:
+                confirmed = f2
                 break
-        if failed:
+        if confirmed is None:
+            dropped.append(key)
             continue
-        n = int(sp["inflight"])
-        if n > 0:
-            infl["scenarios"] += 1
-            infl["calls"] += n
-            un = int(o.get("inflight-finished-unaided", "0"))
-            late = int(o.get("inflight-finished-after-late-answer", "0"))
-            infl["finished_unaided"] += un
-            infl["finished_after_old_ids_answered"] += late
-            res = o.get("inflight-results", "").split(",")
-            wantres = ["pong:%d" % (9000 + i) for i in range(n)]
-            if late != n or res != wantres:
-                bad("inflight-lost" if "waiting" in res else "inflight-wrong-result",
-                    "calls that were waiting for the old data centre: %s" % res, "each completes with its own answer once answered: %s" % wantres, str(res))
-                continue
-            if action == "switch" and un < n:
-                abandoned.append(short)
-        if len(samples) < 6 and int(sid) % 5 == 1:
-            samples.append({"scenario": short, "model": action, "live": call, "connections_new_A_B": list(conns)})
+        confirmed_keys.append(key)
+        if confirmed["what"] in ("died", "stuck"):
+            st["deaths"] += 1
+        rep = dict(confirmed["rep"])
+        rep.update({"expected": confirmed["expected"], "got": confirmed["got"], "confirmed_alone_with_4x_time_bounds": True})
+        if confirmed.get("no_failing_input"):
+            rep["no_failing_input"] = True
+        C.violation(ctx, "migrate-live:%s:%s" % (confirmed["what"], confirmed["short"]), confirmed["msg"], rep)
+    classes, sched, infl, deaths, samples, abandoned = st["classes"], st["sched"], st["infl"], st["deaths"], st["samples"], st["abandoned"]
 
     if abandoned:
         txt = ("calls waiting for the old data centre when another call is migrated are neither re-sent to the new data centre nor failed: "
@@ -228,19 +364,27 @@ def stage(ctx):
         if STRICT_INFLIGHT:
             C.violation(ctx, "migrate-live:inflight-abandoned", txt, {"scenarios": abandoned[:20], "expected": "re-sent or failed", "got": "wait forever"})
     if sched.get("unavailable"):
-        ctx.notes.append("the tree has no yield point between Disconnect and CreateConnection (hook commit 'verif hook: yield point between Disconnect "
-                         "and CreateConnection in Reconnect' missing): the scheduled orders ack-after-close / read-after-close were run unscheduled")
+        ctx.notes.append("the scheduled orders ack-after-close / read-after-close could not be reached in %d scenarios: while the receive loop is held "
+                         "at its acknowledgement the migrating caller never arrives between Disconnect and CreateConnection - the tree serialises "
+                         "sending with migration (or lacks that yield point); those scenarios ran unscheduled" % sched["unavailable"])
     if not samples:
         samples.append({"note": "no sample selected"})
     cov = {
         "scenarios": len(scen), "process_deaths_or_timeouts": deaths,
         "model_decision_to_live_outcome": classes, "scheduled_orders": sched,
         "other_calls_in_flight": infl,
+        "several_callers_migrated_at_once": st["multi"],
+        "timing_retries": retries, "timing_not_reproduced": dropped, "failing_scenarios_not_confirmed_after_enough_violations": skipped,
+        "timing_policy": "every failing scenario is run again alone with 4x watchdog and 4x settle pauses (racing free runs up to 3 times) and "
+                         "reported only if the same check fails again; waits are for events (frame seen by a reference server, goroutine parked at a "
+                         "yield point) bounded by the watchdog, the remaining settle pauses (20/60/50 ms, 300 ms grace) are scaled in the re-run",
         "other_calls_in_flight_reading": "finished_unaided counts calls that came back within 300 ms of the migration without anybody answering them; "
                                          "after that the server the client is connected to answers their old msg_ids",
         "rule": "rpc_error texts {PHONE_MIGRATE_<configured id>, <unconfigured id>, literal X, non-numeric, empty, out of range, other *_MIGRATE_ and plain errors} x "
                 "set-up {SetDCList on a connected client, telegram.NewClient fed by help.getConfig} x seq_no of the error message {needs ack, does not} x "
                 "{0,1,2} other calls waiting x {free run, receive loop's ack held until the caller has closed the old socket, its next read held likewise, its next read held until the caller has switched to the new data centre and repeated the request}; "
+                "plus 2 and 3 callers answered with PHONE_MIGRATE_X in one container (equal X, two ids of one data centre, different X; "
+                "with and without a caller answered normally in between; racing, or ordered at the yield points before/after Disconnect); "
                 "every scenario in its own process; decision compared with the extracted handle/to_native on the DC table read from the live client",
         "samples": samples, "migrate_stage_wall_s": round(time.time() - t0, 1),
     }
